@@ -178,6 +178,7 @@ func collectOutputs(root string, before map[string]scratch.Entry) map[string]str
 
 func runC09(e *env) error {
 	e.rep.Rule = "cases = projects (successful, and failing with several simultaneous faults so that every map iteration in the code has >= 2 candidates: unknown fields, unknown enum keys, several faulty variables, several methods with misplaced field settings, several faulty packages/files, same-named converters, several missing contexts, six methods failing for different reasons, six explicit methods whose helper names collide); each is run by the goverter binary: baseline, 4 repetitions in fresh processes, permuted and duplicated package patterns, ./... , -cwd (absolute and relative) from another directory, a relocated copy of the module, and over the outputs of the previous run; exit status, stderr (paths relativised to the module root) and the bytes of every written file are compared with the baseline. non-trivial = every case (each has several packages/converters or several faults); distinct = project x variant"
+	e.rep.Rule += w10C09Rule
 	bin := goverterBin(e)
 	base := filepath.Join(e.scratch, "c09")
 	_ = os.MkdirAll(base, 0o755)
@@ -272,6 +273,9 @@ func runC09(e *env) error {
 				run("over-previous-output-"+pm, "hist"+pm, inRoot, plain(pats), true)
 			}
 			priorMode = ""
+			if results[i].err == nil && len(results[i].obs) > 0 {
+				results[i].err = w10C09Histories(bin, base, dc, tree, pats, results[i].obs[0], func(o *runObs) { results[i].obs = append(results[i].obs, o) })
+			}
 		}(i, dc)
 	}
 	wg.Wait()
